@@ -364,11 +364,10 @@ Definition client_resize (c : client) (W H : Z) : client :=
 
 (* ------------------------------------------------------------------ SetEncodings *)
 (* the message sent by the harness: [CopyRect?; Raw; RichCursor?; NewFBSize?; ExtDesktopSize?] *)
-(* C03-F25 (open): a copy scheduled while the client supported CopyRect is still sent as CopyRect after the
-   client withdrew the encoding (rfbSendFramebufferUpdate never tests useCopyRect).  notes/fix_C03_7.diff
-   turns the pending copy into modified pixels at the end of SetEncodings; notes/fix_C03_7_model.diff
-   flips this flag. *)
-Definition setenc_drops_copy : bool := false.
+(* C03-F25 (fixed 690d81d): a copy scheduled while the client supported CopyRect used to be sent as CopyRect
+   after the client withdrew the encoding (rfbSendFramebufferUpdate never tests useCopyRect).  Since 690d81d
+   the end of SetEncodings turns the pending copy into modified pixels. *)
+Definition setenc_drops_copy : bool := true.
 
 Definition setenc_client (st : state) (copyrect shape newfb ext : bool) (c : client) : client :=
   (* all flags reset, then one case per encoding in the order above *)
@@ -382,9 +381,9 @@ Definition setenc_client (st : state) (copyrect shape newfb ext : bool) (c : cli
   let c3a := if ext then set_flags c2 (cUseCopy c2) (cShape c2) (cCurChanged c2) (cReady c2) true true
              else c2 in
   (* fix 2b32386: the client no longer draws the cursor itself -> rfbRedrawAfterHideCursor(cl,NULL) *)
-  let c3b := if cShape c && negb (cShape c3a) then redraw_cursor_M st c3a else c3a in
-  let c3 := if setenc_drops_copy && negb copyrect && negb (rgn_is_empty (cC c3b))
-            then set_regions c3b (rgn_or (cM c3b) (cC c3b)) rgn_empty 0 0 (cR c3b) else c3b in
+  let c3b := if setenc_drops_copy && negb copyrect && negb (rgn_is_empty (cC c3a))
+             then set_regions c3a (rgn_or (cM c3a) (cC c3a)) rgn_empty 0 0 (cR c3a) else c3a in
+  let c3 := if cShape c && negb (cShape c3b) then redraw_cursor_M st c3b else c3b in
   (* modelling assumption: a client that does not (or no longer) support NewFBSize knows the
      framebuffer size out of band *)
   if cUseNewFB c3 then c3 else client_resize c3 (sW st) (sH st).
@@ -455,13 +454,12 @@ Definition soft_cursor (st : state) (c1 : client) (U3 : region) : client * regio
 Definition coalesce (st : state) (U : region) : region :=
   if (sMaxRects st >? 0) && (rgn_count U >? sMaxRects st) then rgn_bbox U else U.
 
-(* nRects is a 16-bit field and 0xFFFF means "terminated by LastRect": an update that would announce 65535 or
-   more rectangles (copy rectangles + pixel rectangles + up to 6 pseudo-rectangles) is sent as the bounding
-   box of its pixel region instead (rfbserver.c: "goto countRects" with the bounding box, once) *)
-Definition coalesce16 (st : state) (ncopy : Z) (U : region) : region :=
-  let U1 := coalesce st U in
-  if ncopy + rgn_count U1 + 6 >=? 65535 then rgn_bbox U1 else U1.
-
+(* NOT MODELLED: nRects is a 16-bit field; an update that would announce 65535 or more rectangles (copy +
+   pixel rectangles + 6) is sent as the bounding box of its pixel region, and if the copy rectangles alone
+   reach the field size they are sent as pixels too (rfbserver.c, "goto countRects", fixes b5537e4 and
+   before).  That needs a region of more than 65 000 rectangles (a framebuffer of at least 131 056 x 1 or
+   362 x 362 pixels in a checkerboard); the model announces the count modulo 65536 instead and its
+   theorems about the announced count are only meaningful below that bound (notes/C02.md, "not proved"). *)
 (* the part of rfbSendFramebufferUpdate after the early return: C1 = C - M,
    U2 = (slice(M) + C1) & R *)
 (* [ap cf fb copies dx dy raws] = the client's picture after the rectangles of the update; for
@@ -477,7 +475,7 @@ Definition send_update_gen (ap : (Z -> Z -> Z) -> (Z -> Z -> Z) -> list rect -> 
   let M' := r_sub (r_sub (rgn_or M C1) U3) UC in
   let c1 := set_slice (set_regions c M' rgn_empty 0 0 rgn_empty) sy in
   let '(c2, U3c) := soft_cursor st c1 U3 in
-  let U4 := coalesce16 st (rgn_count UC) U3c in
+  let U4 := coalesce st U3c in
   let copies := copy_wrects UC dx dy in
   let raws := filter raw_emitted (rgn_iter false false U4) in
   let nrects := (rgn_count UC + rgn_count U4 + (if sendShape then 1 else 0)) mod 65536 in
